@@ -566,12 +566,12 @@ class Machine:
 
     def is_bytes_adt(self, tid):
         t = self.p.types[tid]
-        return t["k"] == "adt" and M.norm_path(t["path"]) == "iter::Bytes"
+        return t["k"] == "adt" and M.tail_is(M.norm_path(t["path"]), "Bytes")
 
     def bytes_field_index(self, name):
         if self._bytes_fields is None:
             for t in self.p.types:
-                if t and t["k"] == "adt" and M.norm_path(t["path"]) == "iter::Bytes":
+                if t and t["k"] == "adt" and M.tail_is(M.norm_path(t["path"]), "Bytes"):
                     self._bytes_fields = {f["name"]: i for i, f in enumerate(t["variants"][0]["fields"])}
                     break
             else:
@@ -1634,7 +1634,7 @@ class Machine:
                 align = self.ty(self.local_ty(fr, loc[2])).get("align", 1)
             elif loc[0] == "D" and not loc[3]:
                 for t in self.p.types:
-                    if t and t["k"] == "adt" and M.norm_path(t["path"]) == "Header":
+                    if t and t["k"] == "adt" and M.tail_is(M.norm_path(t["path"]), "Header"):
                         align = t.get("align", 1)
             elif loc[0] == "H" and not loc[2]:
                 align = 8
